@@ -106,7 +106,7 @@ def plan(tier, seed, kf_ids):
     # ---- exact value, 8-bit types, all digits symbolic
     shapes10 = [(3, 0), (1, 3), (0, 4), (1, 5)] if q else [(1, 0), (2, 0), (3, 0), (1, 1), (1, 2), (1, 3), (0, 3), (0, 4), (1, 4), (0, 5), (1, 5), (2, 4), (3, 3)]
     for s in ("U", "I"):
-        fr8 = ([0, 4] if s == "U" else [4, 8]) if q else list(range(9))
+        fr8 = ([0, 1, 4] if s == "U" else [1, 4, 8]) if q else list(range(9))
         for f in fr8:
             for (ni, nk) in shapes10:
                 signs = ["", "-"] if (q and (ni, nk) in ((1, 3), (0, 4))) or not q else [""]
